@@ -265,8 +265,20 @@ def build_driver(flavour, name, bdir=None):
 
 
 def all_drivers():
-    d = os.path.join(VERIF, "harness", "drivers")
-    return sorted(f[:-4] for f in os.listdir(d) if f.endswith(".cpp"))
+    """(flavour, driver) pairs used by the enabled checks (checks/enabled.txt)."""
+    import json
+    cdir = os.path.join(VERIF, "checks")
+    enabled = open(os.path.join(cdir, "enabled.txt")).read().split()
+    out = []
+    for pid in enabled:
+        p = os.path.join(cdir, pid + ".json")
+        if not os.path.exists(p):
+            continue
+        for part in json.load(open(p)).get("parts", []):
+            j = (part.get("flavour", "asan"), part["driver"])
+            if j not in out:
+                out.append(j)
+    return out
 
 
 def main(argv):
@@ -281,18 +293,12 @@ def main(argv):
         print(build_driver(argv[2], argv[3]))
     elif argv[1] == "all":
         from concurrent.futures import ThreadPoolExecutor
-        flavours = argv[2:] or ["asan", "plain"]
+        flavours = argv[2:] or sorted(set(j[0] for j in all_drivers()) | {"asan"})
         with ThreadPoolExecutor(2) as ex:
             dirs = list(ex.map(build_lib, flavours))
         for fl, bd in zip(flavours, dirs):
             build_harness_lib(fl, bd)
-        plain_only = set(PLAIN_DRIVERS)
-        jobs = []
-        for n in all_drivers():
-            if "asan" in flavours:
-                jobs.append(("asan", n))
-            if n in plain_only and "plain" in flavours:
-                jobs.append(("plain", n))
+        jobs = [j for j in all_drivers() if j[0] in flavours]
         with ThreadPoolExecutor(8) as ex:
             list(ex.map(lambda j: build_driver(j[0], j[1]), jobs))
         print("ok")
@@ -301,9 +307,6 @@ def main(argv):
         return 2
     return 0
 
-
-# drivers that are (also) built against the plain flavour
-PLAIN_DRIVERS = ["c18place", "c01"]
 
 if __name__ == "__main__":
     sys.exit(main(sys.argv))
